@@ -40,7 +40,10 @@ func encodeWith(enc ce.Encoder, evs []ev.Event, cfg *configuration.Configuration
 	var buf bytes.Buffer
 	parity := len(evs)
 	for i := range evs {
-		parity += len(evs[i].Bs) + len(evs[i].S)
+		for _, b := range evs[i].Bs {
+			parity += int(b)
+		}
+		parity += len(evs[i].S) + int(evs[i].U&0xff) + int(evs[i].I&0xff)
 	}
 	if parity%2 == 1 {
 		enc.PrepareToEncode(plainWriter{&buf})
